@@ -17,6 +17,11 @@ for o in range(5):
 fam('all-ops-default', PRE=3, LEN=1, ORD=4, OPSET=0, witness=True)
 fam('enq-deq-rem-prioq', PRE=2, LEN=2, ORD=3, OPSET=1, w=3)
 fam('pattern-holder', PRE=2, LEN=2, ORD=2, OPSET=3, w=6)
+fam('pattern-cancel-7-event', PRE=7, LEN=2, ORD=0, OPSEQ='{7,6}', NSYM=1, HEXP=3, w=6)
+fam('pattern-cancel-6-prioq-grow', PRE=6, LEN=2, ORD=3, OPSEQ='{7,5}', NSYM=2, HEXP=1, w=6)
+fam('clear-after-growth', PRE=3, LEN=3, ORD=4, OPSEQ='{8,0,2}', HEXP=1, NSYM=1, w=4)
+fam('clear-after-growth-event', PRE=9, LEN=3, ORD=0, OPSEQ='{8,0,4}', HEXP=3, NSYM=1, w=4)
+fam('clear-after-growth-candkeys', PRE=5, LEN=3, ORD=4, OPSEQ='{8,0,0}', HEXP=1, NSYM=0, CALLERKEYS=2, w=4)
 fam('candkeys-default', PRE=3, LEN=1, ORD=4, CALLERKEYS=2, OPSET=1, NSYM=1, w=14)
 fam('candkeys-prioq-2ops', PRE=2, LEN=2, ORD=3, CALLERKEYS=2, OPSET=1, NSYM=0, w=8)
 fam('symkeys-default', PRE=1, LEN=1, ORD=4, CALLERKEYS=1, OPSET=1, w=6)
